@@ -74,7 +74,7 @@ Proof.
 Qed.
 
 Lemma disc_tick_elem cfg w : disc (tick_elem cfg w).
-Proof. unfold tick_elem. destruct (c_trivial cfg); [apply disc_ret|apply disc_tick]. Qed.
+Proof. unfold tick_elem. destruct (c_quiet cfg); [apply disc_ret|apply disc_tick]. Qed.
 
 Lemma disc_get_block b : disc (get_block b).
 Proof. apply disc_same. intros s. unfold get_block. destruct (nth_error (s_blocks s) b) as [blk|]; auto. destruct (b_live blk); auto. Qed.
@@ -124,7 +124,7 @@ Proof.
   intros s. destruct (nth_error (s_blocks s) b) as [blk|]; auto.
   destruct (negb (b_live blk)); auto. destruct (negb (b_size blk =? n)); auto.
   destruct (negb (alloc_eq cfg (b_owner blk) a)); auto.
-  destruct (negb (c_trivial cfg) && negb (all_raw (b_cells blk))); auto.
+  destruct (negb (c_tdtor cfg) && negb (all_raw (b_cells blk))); auto.
   cbn. split.
   - exists [EvDealloc a b n]. reflexivity.
   - intros Hn. split; auto. intros w [E|H]; [discriminate|auto].
@@ -189,7 +189,7 @@ Lemma disc_base_blk a : disc (base_blk a).
 Proof. unfold base_blk. destruct (a_base a); [apply disc_fail|apply disc_ret]. Qed.
 
 Lemma disc_release cfg a : disc (release cfg a).
-Proof. unfold release. apply disc_bind; [|intros _; apply disc_dealloc]. destruct (c_trivial cfg || (nel a <=? 0)); [apply disc_ret|]. apply disc_bind; [apply disc_base_blk|intros b; apply disc_destroy_range]. Qed.
+Proof. unfold release. apply disc_bind; [|intros _; apply disc_dealloc]. destruct (c_tdtor cfg || (nel a <=? 0)); [apply disc_ret|]. apply disc_bind; [apply disc_base_blk|intros b; apply disc_destroy_range]. Qed.
 
 Lemma disc_p_clear cfg r : disc (p_clear cfg r).
 Proof. unfold p_clear. apply disc_bind; [apply disc_get_arr|]. intros a. apply disc_bind; [apply disc_release|]. intros _. apply disc_set_arr. Qed.
@@ -260,7 +260,7 @@ Qed.
 Lemma keeps_tick w : keeps (tick w).
 Proof. intros s. unfold tick. destruct (s_fault s) as [[|[|k]]|]; reflexivity. Qed.
 Lemma keeps_tick_elem cfg w : keeps (tick_elem cfg w).
-Proof. unfold tick_elem. destruct (c_trivial cfg); [apply keeps_ret|apply keeps_tick]. Qed.
+Proof. unfold tick_elem. destruct (c_quiet cfg); [apply keeps_ret|apply keeps_tick]. Qed.
 Lemma keeps_get_block b : keeps (get_block b).
 Proof. intros s. unfold get_block. destruct (nth_error (s_blocks s) b) as [blk|]; auto. destruct (b_live blk); auto. Qed.
 Lemma keeps_put_block b blk : keeps (put_block b blk).
@@ -294,7 +294,7 @@ Proof.
   intros s. destruct (nth_error (s_blocks s) b) as [blk|]; auto.
   destruct (negb (b_live blk)); auto. destruct (negb (b_size blk =? n)); auto.
   destruct (negb (alloc_eq cfg (b_owner blk) a)); auto.
-  destruct (negb (c_trivial cfg) && negb (all_raw (b_cells blk))); auto.
+  destruct (negb (c_tdtor cfg) && negb (all_raw (b_cells blk))); auto.
 Qed.
 Ltac keeps_prim :=
   first [ apply keeps_set_cell | apply keeps_get_cell | apply keeps_alloc | apply keeps_dealloc | keeps_step ].
@@ -343,7 +343,7 @@ Proof. unfold base_blk. destruct (a_base a); [apply keeps_fail|apply keeps_ret].
 Lemma keeps_release cfg a : keeps (release cfg a).
 Proof.
   unfold release. apply keeps_bind; [|intros _; apply keeps_dealloc].
-  destruct (c_trivial cfg || (nel a <=? 0)); [apply keeps_ret|].
+  destruct (c_tdtor cfg || (nel a <=? 0)); [apply keeps_ret|].
   apply keeps_bind; [apply keeps_base_blk|intros b; apply keeps_destroy_range].
 Qed.
 Lemma keeps_p_build cfg a n rowlen srcs : keeps (p_build cfg a n rowlen srcs).
